@@ -64,10 +64,12 @@ def getSnr {T : Nat} (X N : Fin T → α) : α := snrOfPowers (meanPower X) (mea
 /-- `factor = 10 ** (-(snr - current_snr) / 20)` -/
 def snrFactor (snr current : α) : α := pow10 (-(snr - current) / (twenty : α))
 
+/-- `N * factor` -/
+def scaleNoise {T : Nat} (f : α) (N : Fin T → α) : Fin T → α := fun t => N t * f
+
 /-- `set_snr(X, N, snr)`: the rescaled noise (`current_snr` defaults to `get_snr(X, N)`) -/
 def setSnr {T : Nat} (X N : Fin T → α) (snr : α) : Fin T → α :=
-  let f := snrFactor snr (getSnr X N)
-  fun t => N t * f
+  scaleNoise (snrFactor snr (getSnr X N)) N
 
 /-! ### `_sxr`, `input_sxr` -/
 
